@@ -141,7 +141,7 @@ class Ctx:
         if n == 0:
             return bad, stats, 0
         k = shards or max(1, min(NCPU, n // 300 + 1))
-        cfg = 'SPECIFICATION Spec\nCONSTANT Defects = {%s}\nCHECK_DEADLOCK FALSE\nPOSTCONDITION Post\n' % ', '.join('"%s"' % x for x in defects)
+        cfg = 'SPECIFICATION Spec\nCONSTANT Defects = {%s}\nINVARIANT JudgeRecord\nCHECK_DEADLOCK FALSE\nPOSTCONDITION Post\n' % ', '.join('"%s"' % x for x in defects)
         jobs = []
         for i in range(k):
             lo, hi = i * n // k, (i + 1) * n // k
